@@ -948,7 +948,7 @@ Theorem C07_holds_proof : forall c, wf c = true -> kf c = 0 -> spec c (model c) 
 Proof.
   intros c Hwf _. pose proof (wf_members_pre c Hwf) as Hpre.
   unfold spec, model. cbn [fst snd].
-  apply andb_true_iff. split; [apply andb_true_iff; split|].
+  apply andb_true_iff. split; [apply andb_true_iff; split; [apply andb_true_iff; split; [apply andb_true_iff; split|]|]|].
   - unfold run. destruct (add_all (map mc_member (c_members c))) as [es| | |] eqn:Ea.
     + destruct (run_members_ok c (c_members c) es [] [] Hpre Ea) as (hs & Hhs & Hms).
       { intros g n []. }
@@ -965,6 +965,8 @@ Proof.
       now apply wf_no_diverge in Ex.
   - clear. induction (c_comp c) as [|x r IH]; [reflexivity|]. cbn. assumption.
   - clear. induction (c_comp c) as [|x r IH]; [reflexivity|]. cbn. now rewrite N.eqb_refl.
+  - clear. induction (c_ext c) as [|x r IH]; [reflexivity|]. cbn. assumption.
+  - rewrite map_length. apply Nat.eqb_refl.
 Qed.
 
 (* ---------- each option changes exactly its field ---------- *)
@@ -1349,9 +1351,9 @@ Definition example_case : case :=
           (MSym [(2, true, 1); (3, false, 2)]);
       MkM (MkMember (MkOpts LNone (bs "/opt/t/blk") false [] None None None None true) (SPresent example_obj_blk) 100%Z) MNone;
       MkM (MkMember (MkOpts LSym (bs "/opt/t/lnk") false [] None None None None false) (SPresent example_obj_lnk) 100%Z) MNone ]
-    100%Z 101%Z [(1, true)] RFailed.
+    100%Z 101%Z [(1, true)] [true] RFailed.
 Example example_wf : wf example_case = true /\ kf example_case = 0
-  /\ (exists hs, fst (model example_case) = ROutput hs /\ length hs = 3%nat).
+  /\ (exists hs, fst (fst (model example_case)) = ROutput hs /\ length hs = 3%nat).
 Proof. vm_compute. repeat split. eexists. split; reflexivity. Qed.
 
 Lemma dev_decode d : dev_major d = ref_major d /\ dev_minor d = ref_minor d.
